@@ -20,7 +20,6 @@ static double g_limit = 1e300;
 struct CellState { std::vector<std::array<double, 3>> X; std::vector<char> used; std::vector<std::array<unsigned, 3>> T; double V = 0, p = 0, Vt = 0, K = 0; unsigned id = 0; };
 struct State { std::vector<CellState> cells; long iters = 0; std::string exc; std::vector<CellState> div_cells; long div_iter = -1; long tie_pairs = 0; long first_tie_iter = -1; };
 static State* g_state = nullptr; static std::array<double, 3> g_shift = {0, 0, 0}; static size_t g_prev_count = 0; static double g_cut2 = 0;
-static long g_trace_it = 0;
 // A presented (node, face) pair whose outcome is decided by rounding: the node lies within the cut-off of the face, its closest point on the
 // face is not the foot of the perpendicular (vertex / edge region), and the vector from that point to the node is perpendicular to the face
 // normal up to 1e-7 - the sign test `(p - q).n < 0` of the repulsion rule then switches a finite force on or off by rounding noise.  After a
@@ -34,34 +33,21 @@ static void tie_pair(const cell* c1, const node* n, const cell* c2, const face* 
     if (std::fabs(v.dot(nrm)) <= 1e-7L * v.norm() * nn) { g_state->tie_pairs++; if (g_state->first_tie_iter < 0) g_state->first_tie_iter = g_state->iters; }
     (void)c1;
 }
-static std::vector<std::array<unsigned, 4>> g_tr_pairs;
-static void tr_pair(const cell* c1, const node* n, const cell* c2, const face* f) { g_tr_pairs.push_back({c1->get_id(), n->get_local_id(), c2->get_id(), f->get_local_id()});
-    if (getenv("VH_TRACE_SEQ")) { FILE* tf = fopen("/tmp/vh_trace_seq.log", "a"); if (tf) { const vec3& fo = n->force(); const auto& nl = cell_tester::nodes(*c2); const node& a = nl[cell_tester::n1(*f)]; const node& b = nl[cell_tester::n2(*f)]; const node& cc = nl[cell_tester::n3(*f)];
-        fprintf(tf, "sq c %u n %u c2 %u f %u |F| %.10e coupled %d nn %.6e %.6e %.6e curv %.6e fn %.6e %.6e %.6e d2 %.10e %.10e %.10e\n", c1->get_id(), n->get_local_id(), c2->get_id(), f->get_local_id(), std::sqrt(fo.dx() * fo.dx() + fo.dy() * fo.dy() + fo.dz() * fo.dz()), (int)cell_tester::coupled(*n).has_value(), n->get_normal().dx(), n->get_normal().dy(), n->get_normal().dz(), n->get_curvature(), f->get_normal().dx(), f->get_normal().dy(), f->get_normal().dz(), (n->pos() - a.pos()).squared_norm(), (n->pos() - b.pos()).squared_norm(), (n->pos() - cc.pos()).squared_norm()); fclose(tf); } } }
 static void on_phase(int tag, const std::vector<cell_ptr>* lp) { if (tag == 8 && tis::blown_up(*lp, g_limit)) throw tis::unstable_run();
     // state right after the first division of the run (before the daughters meet the contact rules)
     if (g_state && tag == 0) g_prev_count = lp->size();
     if (g_state && tag == 2 && g_state->div_iter < 0 && lp->size() > g_prev_count) { g_state->div_iter = g_state->iters;
         for (auto& cp : *lp) { CellState cs; cs.id = cp->get_id(); for (const node& n : cell_tester::nodes(*cp)) { cs.X.push_back({n.pos().dx() - g_shift[0], n.pos().dy() - g_shift[1], n.pos().dz() - g_shift[2]}); cs.used.push_back(n.is_used()); }
             for (const face& f : cell_tester::faces(*cp)) if (f.is_used()) cs.T.push_back({cell_tester::n1(f), cell_tester::n2(f), cell_tester::n3(f)}); g_state->div_cells.push_back(cs); } }
-    if (getenv("VH_TRACE_PH")) { if (tag == 0) g_trace_it++; if (tag == 4) { g_tr_pairs.clear(); verif::get().contact_pair = tr_pair; if (getenv("VH_TRACE_SEQ")) { FILE* tf = fopen("/tmp/vh_trace_seq.log", "a"); if (tf) { fprintf(tf, "IT %ld\n", g_trace_it); fclose(tf); } } }
-        if (tag == 5 && getenv("VH_TRACE_NODES")) { std::sort(g_tr_pairs.begin(), g_tr_pairs.end()); FILE* tf = fopen("/tmp/vh_trace_ph.log", "a"); for (auto& p : g_tr_pairs) fprintf(tf, "pp it %ld c %u n %u c2 %u f %u\n", g_trace_it, p[0], p[1], p[2], p[3]); fclose(tf); } FILE* tf = fopen("/tmp/vh_trace_ph.log", "a"); if (tf) { for (auto& cp : *lp) { std::vector<V3> P; std::vector<orc::Tri> T; std::vector<char> used; std::vector<unsigned> live; gen::extract(*cp, P, T, &used, &live); V3 ctr; for (unsigned k : live) ctr += P[k]; ctr = ctr / (R)live.size(); R vol = 0; for (auto& t : T) vol += (P[t.a] - ctr).dot((P[t.b] - ctr).cross(P[t.c] - ctr)) / 6;
-                R fsum = 0; for (unsigned k : live) { const vec3& f = cell_tester::nodes(*cp)[k].force(); fsum += std::fabs(f.dx()) + std::fabs(f.dy()) + std::fabs(f.dz()); }
-                long ncp = 0; uint64_t hc = 0; long nforced = 0;
-#if CONTACT_MODEL_INDEX == 1
-                for (unsigned k : live) { const node& nd = cell_tester::nodes(*cp)[k]; if (cell_tester::coupled(nd).has_value()) { ncp++; hc = hash_combine(hc, ((uint64_t)k << 32) | cell_tester::coupled(nd).value().second); } const vec3& f = nd.force(); if (f.dx() != 0 || f.dy() != 0 || f.dz() != 0) nforced++; }
-#endif
-                if (tag == 5 && getenv("VH_TRACE_NODES")) for (unsigned k : live) { const node& nd = cell_tester::nodes(*cp)[k]; const vec3& f = nd.force(); if (f.dx() != 0 || f.dy() != 0 || f.dz() != 0) fprintf(tf, "nf it %ld cell %u node %u f %.10e %.10e %.10e x %.10e %.10e %.10e\n", g_trace_it, cp->get_id(), k, f.dx(), f.dy(), f.dz(), nd.pos().dx() - (double)ctr.x, nd.pos().dy() - (double)ctr.y, nd.pos().dz() - (double)ctr.z); }
-                fprintf(tf, "ph it %ld tag %d cell %u faces %zu V %.14Le F %.14Le coupled %ld hash %016llx forced %ld\n", g_trace_it, tag, cp->get_id(), T.size(), vol, fsum, ncp, (unsigned long long)hc, nforced); } fclose(tf); } } }
-
+}
 
 static State run(const tis::Scenario& s0, const std::array<double, 3>& t, uint64_t noise_seed, double noise_rel, uint64_t rng_base, const std::string& out) {
-    tis::Scenario s = s0; s.P.output_folder_path_ = out; State st; g_trace_it = 0; if (getenv("VH_TRACE_PH")) { FILE* tf = fopen("/tmp/vh_trace_ph.log", "a"); if (tf) { fprintf(tf, "RUN\n"); fclose(tf); } tf = fopen("/tmp/vh_trace_seq.log", "a"); if (tf) { fprintf(tf, "RUN\n"); fclose(tf); } }
+    tis::Scenario s = s0; s.P.output_folder_path_ = out; State st;
     Rng ng(noise_seed, 0, 0x14);
     for (auto& c : s.cells) for (auto& p : c.mesh.P) for (int d = 0; d < 3; d++) { double x = p[d]; if (noise_rel > 0) x *= (1.0 + noise_rel * ng.uni(-1, 1)); p[d] = x + t[d]; }
     { std::lock_guard<std::mutex> lk(g_mu); g_rng_base = rng_base; g_ctr.clear(); } verif::rng_context() = 0;
     g_state = &st; g_shift = t; g_prev_count = s.cells.size(); g_cut2 = std::pow(std::max(s.P.contact_cutoff_adhesion_, s.P.contact_cutoff_repulsion_), 2);
-    if (!getenv("VH_TRACE_PH")) verif::get().contact_pair = tie_pair;
+    verif::get().contact_pair = tie_pair;
     try {
         std::vector<cell_ptr> cells = tis::build_cells(s);
         tis::msolver sv(s.P, cells, 1, true, false);
@@ -73,7 +59,7 @@ static State run(const tis::Scenario& s0, const std::array<double, 3>& t, uint64
             st.cells.push_back(cs); }
     } catch (const std::exception& e) { st.exc = e.what(); }
     catch (const tis::unstable_run&) { st.exc = "unstable: coordinates exploded"; }
-    g_state = nullptr; if (!getenv("VH_TRACE_PH")) verif::get().contact_pair = nullptr;
+    g_state = nullptr; verif::get().contact_pair = nullptr;
     std::error_code ec; std::filesystem::remove_all(out, ec); return st;
 }
 
